@@ -671,3 +671,139 @@ def replay_container_copy(case, model, rec):
     if src is not g and (r.meta != src.meta or r.meta is src.meta):
         bad.append("meta")
     return {"reproduced": bool(bad), "observed": bad}
+
+
+# --------------------------------------------------------------------------------------
+# C09 native oracles
+# --------------------------------------------------------------------------------------
+VBIN = dict(BINOPS)
+VBIN.update({k: v for k, v in CMPOPS.items() if k.startswith("__")})
+
+
+def mkvec(n, unit="m", base=1.0, dtype="float64"):
+    np = _np()
+    osy = _os()
+    return osy.Vector(*[osy.Array(values=(np.array([1, 2, 3]) * (k + 1) * base).astype(dtype), unit=unit)
+                        for k in range(n)])
+
+
+def vector_op_oracle(opname, n, kind, ua="m", ub="cm", dtype="float64"):
+    import pint
+
+    np = _np()
+    osy = _os()
+    v = mkvec(n, ua, dtype=dtype)
+    if kind == "Vector":
+        w = mkvec(n, ub, base=10.0, dtype=dtype)
+        wc = lambda c: getattr(w, c)  # noqa: E731
+    else:
+        w = build_operand(kind, (np.array([2, 4, 8])).astype(dtype), ub)
+        wc = lambda c: w  # noqa: E731
+    op = VBIN[opname]
+    want, want_exc = {}, None
+    try:
+        for c in "xyz"[:n]:
+            want[c] = op(getattr(v, c), wc(c))
+    except (pint.DimensionalityError, ValueError) as e:
+        want_exc = e
+    try:
+        r, got_exc = op(v, w), None
+    except (pint.DimensionalityError, ValueError) as e:
+        r, got_exc = None, e
+    if want_exc is not None or got_exc is not None:
+        return (want_exc is None) == (got_exc is None), "component op %s, vector op %s" % (
+            "raised" if want_exc else "value", "raised" if got_exc else "value")
+    if not isinstance(r, osy.Vector) or r.nvec != n:
+        return False, "result %r" % (r,)
+    for c in "xyz"[:n]:
+        g, e = getattr(r, c), want[c]
+        if g.unit != e.unit and phys(g).units.dimensionality != phys(e).units.dimensionality:
+            return False, "component %s unit %s vs %s" % (c, g.unit, e.unit)
+        if not np.allclose(np.asarray(phys(g).to(phys(e).units).magnitude, float), np.asarray(phys(e).magnitude, float)):
+            return False, "component %s %s vs %s" % (c, g.values, e.values)
+    return True, ""
+
+
+def replay_vector_op(case, model, rec):
+    parts = (case or "__add__,nvec=3,Vector").split(",")
+    opname = parts[0]
+    if "vs" in parts[-1]:
+        import operator as _op
+
+        a, b = map(int, parts[-1].split("vs"))
+        try:
+            VBIN[opname](mkvec(a), mkvec(b))
+            return {"reproduced": True, "observed": "no ValueError for %d vs %d components" % (a, b)}
+        except ValueError:
+            return {"reproduced": False}
+    if opname not in VBIN:
+        return {"reproduced": False, "note": "unary/reflected: decided by the obligation"}
+    n = int(parts[1].split("=")[1])
+    kind = parts[2]
+    for dtype in ("float64", "float32", "int32"):
+        for ua, ub in (("m", "cm"), ("m", "m"), ("m", "s")):
+            ok, detail = vector_op_oracle(opname, n, kind, ua, ub, dtype)
+            if not ok:
+                return {"reproduced": True, "input": {"op": opname, "nvec": n, "kind": kind, "units": [ua, ub],
+                                                      "dtype": dtype}, "observed": detail}
+    return {"reproduced": False}
+
+
+def replay_vector_numpy(case, model, rec):
+    np = _np()
+    osy = _os()
+    shape, nv = (case or "unary,nvec=3").split(",")
+    n = int(nv.split("=")[1])
+    v, w = mkvec(n, "m"), mkvec(n, "s", base=2.0)
+    if shape == "unary":
+        r, want = np.sqrt(v), [np.sqrt(getattr(v, c)) for c in "xyz"[:n]]
+    elif shape == "binary":
+        r, want = np.multiply(v, w), [np.multiply(getattr(v, c), getattr(w, c)) for c in "xyz"[:n]]
+    elif shape == "binary_scalar":
+        r, want = np.multiply(v, 3.0), [np.multiply(getattr(v, c), 3.0) for c in "xyz"[:n]]
+    else:
+        w = mkvec(n, "m", base=2.0)
+        r, want = np.concatenate([v, w]), [np.concatenate([getattr(v, c), getattr(w, c)]) for c in "xyz"[:n]]
+    for c, e in zip("xyz", want):
+        g = getattr(r, c)
+        if g.unit != e.unit or not np.allclose(g.values, e.values):
+            return {"reproduced": True, "input": case, "observed": "%s: %s vs %s" % (c, g, e)}
+    return {"reproduced": False}
+
+
+def replay_norm(case, model, rec):
+    np = _np()
+    n = int((case or "nvec=3").split("=")[1])
+    v = mkvec(n, "m", base=-1.0)
+    r = v.norm
+    want = np.sqrt(sum(getattr(v, c).values ** 2 for c in "xyz"[:n]))
+    ok = np.allclose(r.values, want) and r.unit == v.unit
+    return {"reproduced": not ok, "input": "components %s" % [getattr(v, c).values.tolist() for c in "xyz"[:n]],
+            "observed": "norm %s expected %s" % (r.values, want)}
+
+
+def replay_dot(case, model, rec):
+    np = _np()
+    nv, rel = (case or "nvec=3,compatible").split(",")
+    n = int(nv.split("=")[1])
+    a, b = mkvec(n, "m"), mkvec(n, "cm" if rel == "compatible" else "m", base=10.0)
+    r = a.dot(b)
+    want = sum(phys(getattr(a, c)) * phys(getattr(b, c)) for c in "xyz"[:n])
+    ok, detail = compare(r, want)
+    return {"reproduced": not ok, "input": "a=%s m, b=%s %s" % (a.x.values, b.x.values, b.unit), "observed": detail}
+
+
+def replay_cross(case, model, rec):
+    np = _np()
+    osy = _os()
+    rel = case or "compatible"
+    a = osy.Vector(*[osy.Array(values=np.array([x]), unit="m") for x in (1.0, 2.0, 3.0)])
+    b = osy.Vector(*[osy.Array(values=np.array([x]), unit="cm" if rel == "compatible" else "m") for x in (-200.0, 50.0, 700.0)])
+    r = a.cross(b)
+    pa, pb = [phys(getattr(a, c)) for c in "xyz"], [phys(getattr(b, c)) for c in "xyz"]
+    want = [pa[1] * pb[2] - pa[2] * pb[1], pa[2] * pb[0] - pa[0] * pb[2], pa[0] * pb[1] - pa[1] * pb[0]]
+    for c, e in zip("xyz", want):
+        ok, detail = compare(getattr(r, c), e)
+        if not ok:
+            return {"reproduced": True, "observed": "%s: %s" % (c, detail)}
+    return {"reproduced": False}
